@@ -3,6 +3,7 @@ package props
 import (
 	"bytes"
 	"fmt"
+	"strings"
 
 	"github.com/yuin/goldmark/ast"
 
@@ -176,6 +177,66 @@ func runC09(r *core.Run) {
 				}
 			})
 		sub.Extra["constructs"] = len(cons)
+	}
+	// (1d) every ordered pair of seeds: the spec examples, the sources of the repository's own test-case files and a list
+	// of edge constructs (empty and marker-only list items, empty quotes, things left open), without link reference syntax
+	{
+		edge := []string{"-\n  foo", "-\n\n  foo", "- a\n-\n", "*", "-", "1.", "1.\n   a", "- a\n-", "-\n- a", "- \n  a", "> ", ">", ">\n> a", "- >", "-   a",
+			"- a\n\n\n", "+\n\n", "- - a", "- # a", "    a\n\n    b", "a\\", "a  ", "\\", "`", "``a", "*a", "_a", "<div>", "<!--", "<?a", "<!A", "<![CDATA[", "</x", "a\n>", "a\n-", "a\n=", "~~~", "```", "- ```", "> ```", "-\n\n-\n\n  a", "1.\n2.\n   a", "-\n  -\n    a", ">\n\n> a", "- a\n\n-", "*\n*\n*"}
+		for _, cn := range []string{"core+unsafe", "gfm"} {
+			cfg := core.MustCfg(cn)
+			type item struct {
+				src, out []byte
+				open     bool
+			}
+			var items []item
+			{
+				cv := core.NewConv(cfg)
+				add := func(md string) {
+					if strings.ContainsAny(md, "[\t\r") || strings.TrimSpace(md) == "" || len(md) > core.Pick(r, 200, 4000) {
+						return
+					}
+					src := []byte(strings.TrimRight(md, "\n"))
+					doc, pan := cv.Parse(src)
+					out, err, pan2 := cv.Convert(src)
+					if pan != nil || pan2 != nil || err != nil || doc == nil {
+						return
+					}
+					items = append(items, item{src, append([]byte{}, out...), endsInOpenRawBlock(doc)})
+				}
+				for _, e := range Seeds(r) {
+					add(e.Markdown)
+				}
+				for _, e := range edge {
+					add(e)
+				}
+			}
+			sub := r.Sub("seed-pairs/"+cn, fmt.Sprintf("every ordered pair (A, B) of %d seeds (spec examples, sources of the repository's test-case files, %d edge constructs such as empty and marker-only list items; seeds containing '[', a tab or a carriage return are left out, A skipped when it ends in an open code/HTML block): R(A ⏎⏎ '# h' ⏎⏎ B) == R(A) + heading + R(B) under %s", len(items), len(edge), cn))
+			sub.Bound = fmt.Sprintf("%d × %d pairs", len(items), len(items))
+			complete := core.ForEachIndex(len(items), core.Workers(), func(w int) func(int) {
+				cv := core.NewConv(cfg)
+				var scratch []byte
+				return func(i int) {
+					if items[i].open {
+						return
+					}
+					for j := range items {
+						c09PairCase(sub, cv, items[i].src, items[i].out, items[j].src, items[j].out, &scratch)
+					}
+					sub.Evals.Add(int64(len(items)))
+					sub.Distinct(core.Hash(items[i].out))
+					if i%(len(items)/6+1) == 0 {
+						sub.AddSample("A = " + core.Q(items[i].src))
+					}
+				}
+			}, r.Expired)
+			if !complete {
+				sub.Incomplete("internal deadline reached")
+			}
+			sub.States.Store(int64(len(items)))
+			sub.Transitions.Store(sub.Evals.Load())
+			sub.Done()
+		}
 	}
 	// (1c) long closed prefixes: A = (unit sep)^n for EVERY n up to a bound, B = constructs whose rendering depends on
 	// blank-line bookkeeping (loose/tight lists) and others; thresholds inside the block parser are crossed at every phase
